@@ -34,18 +34,34 @@ BoolEval(a, atoms, sigma) ==
 RECURSIVE AllAtoms(_,_)
 AllAtoms(asts, acc) == IF asts = <<>> THEN acc ELSE AllAtoms(Tail(asts), AtomsOf(asts[1], acc))
 \* emitted: token sequence of the whole translation; clauses: sequence of token sequences, one per primitive clause
+\* the logical skeleton of an AST: atoms replaced by their index (computed once, so each assignment is cheap to evaluate)
+RECURSIVE Skel(_,_), SkelEval(_,_)
+Skel(a, atoms) == IF ~IsLogic(a) THEN [k |-> "atom", i |-> IndexOf(atoms, a)]
+                  ELSE IF a.k = "bin" THEN [k |-> a.op, l |-> Skel(a.l, atoms), r |-> Skel(a.r, atoms)]
+                  ELSE IF a.k = "un" THEN [k |-> "!", x |-> Skel(a.x, atoms)]
+                  ELSE [k |-> "?", c |-> Skel(a.c, atoms), a |-> Skel(a.a, atoms), b |-> Skel(a.b, atoms)]
+SkelEval(s, sigma) == CASE s.k = "atom" -> sigma[s.i]
+                        [] s.k = "&&" -> SkelEval(s.l, sigma) /\ SkelEval(s.r, sigma)
+                        [] s.k = "||" -> SkelEval(s.l, sigma) \/ SkelEval(s.r, sigma)
+                        [] s.k = "!" -> ~SkelEval(s.x, sigma)
+                        [] s.k = "?" -> IF SkelEval(s.c, sigma) THEN SkelEval(s.a, sigma) ELSE SkelEval(s.b, sigma)
+PreservesParsed(tree, cl, full) ==
+   LET atoms == AllAtoms(cl, AtomsOf(full, <<>>))
+       sf == Skel(full, atoms)
+       sc == [i \in 1..Len(cl) |-> Skel(cl[i], atoms)]
+   IN \A sigma \in [1..Len(atoms) -> BOOLEAN] :
+         SkelEval(sf, sigma) = Truth(tree, [i \in 1..Len(cl) |-> SkelEval(sc[i], sigma)])
 Preserves(tree, clauses, emitted) ==
    LET full == Parse(emitted)
        cl == [i \in 1..Len(clauses) |-> Parse(clauses[i])]
-   IN /\ full # NoParse /\ \A i \in 1..Len(clauses) : cl[i] # NoParse
-      /\ LET atoms == AllAtoms(cl, AtomsOf(full, <<>>)) IN
-         \A sigma \in [1..Len(atoms) -> BOOLEAN] :
-            BoolEval(full, atoms, sigma) = Truth(tree, [i \in 1..Len(clauses) |-> BoolEval(cl[i], atoms, sigma)])
-\* why a translation is rejected (for the verdict)
+   IN full # NoParse /\ (\A i \in 1..Len(clauses) : cl[i] # NoParse) /\ PreservesParsed(tree, cl, full)
+\* why a translation is rejected (for the verdict); every text is parsed once
 Verdict(tree, clauses, emitted) ==
-   IF Parse(emitted) = NoParse THEN "emitted text does not parse"
-   ELSE IF \E i \in 1..Len(clauses) : Parse(clauses[i]) = NoParse THEN "a clause does not parse"
-   ELSE IF Preserves(tree, clauses, emitted) THEN "ok" ELSE "truth table differs"
+   LET full == Parse(emitted)
+       cl == [i \in 1..Len(clauses) |-> Parse(clauses[i])]
+   IN IF full = NoParse THEN "emitted text does not parse"
+      ELSE IF \E i \in 1..Len(clauses) : cl[i] = NoParse THEN "a clause does not parse"
+      ELSE IF PreservesParsed(tree, cl, full) THEN "ok" ELSE "truth table differs"
 
 \* ---- a reference translation (every child of a connective parenthesised): shows the contract is satisfiable
 RECURSIVE Ref(_,_), JoinKids(_,_,_)
